@@ -1,12 +1,13 @@
 (* Same-scope scan groups: their denotation is the join of the scans in any order; a left-deep physical tree over
    the scans (any join algorithm per node) and the star plan compute that join from any incoming rows. *)
 Require Import KV.Sparql.Base KV.Sparql.Syntax KV.Sparql.MuProofs KV.Sparql.JoinProofs KV.Sparql.Algebra KV.Sparql.Engine
-        KV.Sparql.PlanEquiv KV.Sparql.Sem KV.Sparql.ScanProofs KV.Sparql.HashProofs KV.Sparql.SemProofs KV.Sparql.ExecLemmas.
+        KV.Sparql.PlanEquiv KV.Sparql.Sem KV.Sparql.ScanProofs KV.Sparql.HashProofs KV.Sparql.SemProofs KV.Sparql.ExecLemmas KV.Sparql.IdemProofs.
 Require Import Lia Permutation.
 
 Section Groups.
   Variables (st : dataset) (ev : eview) (active : option term).
   Hypothesis ND : named_nodup ev.
+  Hypothesis SS : store_sets st.
 
   Definition S (q : qpat) : list mu := scan_row st ev active q [].
   Definition bj (qs : list qpat) : list mu := fold_right (fun q acc => join (S q) acc) [[]] qs.
@@ -142,26 +143,37 @@ Section Groups.
     - inversion H; subst. rewrite app_nil_r. rewrite exec_XStar. apply exec_star_fold; auto.
   Qed.
 
-  (* with no repeated pattern in the group, the star plan has exactly the group's patterns *)
+  (* a pattern of the group may be listed again: joining a scan with itself changes nothing *)
+  Lemma S_idem : forall q, join (S q) (S q) ≡ₚ S q.
+  Proof. intro q. apply scan_idem; auto. Qed.
+
+  Lemma bj_dup : forall g q, In q g -> bj (g ++ [q]) ≡ₚ bj g.
+  Proof.
+    intros g q Hq. apply in_split in Hq. destruct Hq as (g1 & g2 & E). subst g.
+    assert (P : Permutation (g1 ++ q :: g2) (q :: g1 ++ g2)) by (apply Permutation_sym; apply Permutation_middle).
+    eapply perm_trans; [apply bj_app|]. rewrite bj_single.
+    eapply perm_trans; [apply join_perm_l; apply bj_perm; exact P|].
+    eapply perm_trans; [|apply bj_perm; apply Permutation_sym; exact P].
+    cbn [bj fold_right]. fold (bj (g1 ++ g2)).
+    eapply perm_trans; [apply join_comm; [apply join_wf; apply S_wf | apply S_wf]|].
+    rewrite <- join_assoc by (auto using S_wf, bj_wf).
+    apply join_perm_l. apply S_idem.
+  Qed.
+
+  Lemma bj_absorb : forall extra g, (forall q, In q extra -> In q g) -> bj (g ++ extra) ≡ₚ bj g.
+  Proof.
+    induction extra as [|q e IH]; intros g H; [rewrite app_nil_r; auto|].
+    change (g ++ q :: e) with (g ++ [q] ++ e). rewrite app_assoc.
+    eapply perm_trans; [apply IH|].
+    - intros q' Hq'. apply in_or_app. left. apply H. right; auto.
+    - apply bj_dup. apply H. left; auto.
+  Qed.
+
   Lemma count_q_in : forall q l, (1 <= count_q q l)%nat -> In q l.
   Proof.
     intros q l H. unfold count_q in H. destruct (filter (qpat_eqb q) l) as [|x r] eqn:E; [cbn in H; lia|].
     assert (Hx : In x (filter (qpat_eqb q) l)) by (rewrite E; left; auto).
     apply filter_In in Hx. destruct Hx as [Hx Hq]. apply qpat_eqb_eq in Hq. subst. exact Hx.
-  Qed.
-
-  Lemma nodupb_count : forall l q, nodupb l = true -> (count_q q l <= 1)%nat.
-  Proof.
-    induction l as [|x r IH]; intros q H; cbn in *; [lia|].
-    apply andb_true_iff in H. destruct H as [H1 H2]. unfold count_q in *. cbn [filter].
-    destruct (qpat_eqb q x) eqn:E; [|apply IH; auto].
-    apply qpat_eqb_eq in E. subst x. cbn [List.length].
-    specialize (IH q H2). destruct (filter (qpat_eqb q) r) as [|y r'] eqn:Ef; [cbn; lia|].
-    exfalso. assert (Hy : In y (filter (qpat_eqb q) r)) by (rewrite Ef; left; auto).
-    apply filter_In in Hy. destruct Hy as [Hy Hq]. apply qpat_eqb_eq in Hq. subst y.
-    apply negb_true_iff in H1. assert (existsb (qpat_eqb q) r = true).
-    { apply existsb_exists. exists q. split; auto. apply qpat_eqb_eq. reflexivity. }
-    congruence.
   Qed.
 
   Lemma remove_group_perm : forall group all extra, remove_group group all = Some extra -> Permutation all (group ++ extra).
@@ -173,14 +185,13 @@ Section Groups.
       + exfalso. clear - H. induction r as [|x r IHr]; cbn in H; [discriminate | auto].
   Qed.
 
-  Lemma star_ok_perm : forall group v pats rest, nodupb group = true -> star_ok group v pats rest = true ->
-    Permutation (map (fun t => (t, GDefault)) (pats ++ rest)) group.
+  Lemma star_ok_bj : forall group v pats rest, star_ok group v pats rest = true ->
+    bj (map (fun t => (t, GDefault)) (pats ++ rest)) ≡ₚ bj group.
   Proof.
-    intros group v pats rest N H. unfold star_ok in H. apply andb_true_iff in H. destruct H as [_ H].
+    intros group v pats rest H. unfold star_ok in H. apply andb_true_iff in H. destruct H as [_ H].
     destruct (remove_group group (map (fun t => (t, GDefault)) (pats ++ rest))) as [extra|] eqn:E; [|discriminate].
-    apply remove_group_perm in E. destruct extra as [|q extra'].
-    - rewrite app_nil_r in E. exact E.
-    - exfalso. cbn [forallb] in H. apply andb_true_iff in H. destruct H as [H _].
-      apply Nat.leb_le in H. pose proof (nodupb_count group q N). lia.
+    apply remove_group_perm in E.
+    eapply perm_trans; [apply bj_perm; exact E|]. apply bj_absorb.
+    intros q Hq. rewrite forallb_forall in H. specialize (H q Hq). apply Nat.leb_le in H. apply count_q_in. lia.
   Qed.
 End Groups.
